@@ -250,6 +250,46 @@ def validityTower (tower : String) (q : Nat) (a b : String) (r : Nat) (P : Strin
     some (4, validity (quad F2 (el2 (parseList γ))) el4 a b r P)
   | _ => none
 
+/-! ### `mapc`: the point `Q = MapToCurve(u)` handed over on the line (before isogeny / cofactor clearing) -/
+
+/-- RFC 9380 §4.1 `sgn0` on the coordinates of an element of `F_p^m` (constant-time formulation, any `m`) -/
+def sgn0List (q : Nat) (cs : List Nat) : Bool :=
+  (cs.foldl (fun (st : Bool × Bool) c => (st.1 || (st.2 && c % q % 2 == 1), st.2 && c % q == 0)) (false, true)).1
+
+/-- the two candidate abscissae of simplified SWU (RFC 9380 §6.6.2): `x1 = (−B/A)(1 + 1/tv2)` (`B/(Z·A)` when `tv2 = 0`),
+`x2 = Z·u²·x1`, computed with the operations of steps 1–8 and 25 of `sswu` -/
+def sswuCandidates {α : Type} (F : FOps α) (A B Z u : α) : α × α :=
+  let tv1 := F.mul Z (F.mul u u)
+  let tv2 := F.add (F.mul tv1 tv1) tv1
+  let tv3 := F.mul B (F.add tv2 F.one)
+  let tv4 := F.mul A (if F.beq tv2 F.zero then Z else F.neg tv2)
+  let x1 := F.mul tv3 (F.inv tv4)
+  (x1, F.mul tv1 x1)
+
+def mapcCheck {α : Type} (F : FOps α) (ofList : List Nat → α) (q : Nat) (a b kind z u Q : String) : String :=
+  let A := ofList (parseList a); let B := ofList (parseList b)
+  match Q.splitOn ";" with
+  | [xs, ys] =>
+    let x := ofList (parseList xs); let yl := parseList ys; let y := ofList yl
+    let on := F.beq (F.mul y y) (gOf F A B x)
+    -- RFC: y = CMOV(-y, y, sgn0(u) == sgn0(y)); a point with y = 0 keeps sgn0(y) = 0
+    let sgn := yl.all (· % q == 0) || sgn0List q (parseList u) == sgn0List q yl
+    let xin := if kind == "sswu" then
+        let c := sswuCandidates F A B (ofList (parseList z)) (ofList (parseList u))
+        F.beq x c.1 || F.beq x c.2
+      else true
+    "1 " ++ okStr on ++ " " ++ okStr sgn ++ " " ++ okStr xin
+  | _ => "1 X X X"   -- MapToCurve never returns the point at infinity
+
+def mapcTower (tower : String) (q : Nat) (a b kind z u Q : String) : String :=
+  match tower.splitOn ":" with
+  | ["1"] => mapcCheck (fp q) (fun l => l.getD 0 0) q a b kind z u Q
+  | ["2", β] => mapcCheck (quad (fp q) (parseHexD β)) el2 q a b kind z u Q
+  | ["4", β, γ] =>
+    let F2 := quad (fp q) (parseHexD β)
+    mapcCheck (quad F2 (el2 (parseList γ))) el4 q a b kind z u Q
+  | _ => "bad-op"
+
 def fieldOfCurve (curve : String) : Option Gen.FieldConsts :=
   lookupField ((curve.replace "-" "_") ++ "_fp")
 
@@ -267,6 +307,8 @@ def showXmd (r : Except Err (List UInt8)) : String :=
 * `xmd <msg> <dst> <len>`                       → `ok <bytes>` | `err:len` | `err:dst`
 * `h2f <field> <msg> <dst> <count>`             → `ok e0,e1,…` (regular values) | `err:…`
 * `map  <curve> <grp> <tower> <p> <a> <b> <r> <u> <P>`         → `1 <onCurve> <[r]P=O> 1` (first flag: determinism, last: sgn0(y)=sgn0(u) on MapToCurve; Go side)
+* `mapc <curve> <grp> <tower> <p> <a'> <b'> <svdw|sswu> <Z> <u> <Q>` → `1 <Q on y²=x³+a'x+b'> <sgn0(y)=sgn0(u)> <SSWU: x ∈ {x1,x2}>`
+  (Q = MapToCurve(u) before isogeny / cofactor clearing; all three computed by the model on the data of the line)
 * `enc|hash <curve> <grp> <tower> <p> <a> <b> <r> <msg> <dst> <P>` → `1 <onCurve> <[r]P=O> ok <u…>` (u recomputed by the model)
 * `distinct <curve> <grp> <u1> <u2>`            → `1` (statistical test: the maps are at most 4-to-1)
 * `svdw <curve> <u>`                            → exact image `x;y` of the F_p SvdW template
@@ -288,6 +330,10 @@ def handle (args : List String) : String :=
       match validityTower tower fc.q a b (parseHexD r) P with
       | none => "bad-op"
       | some (_, v) => "1 " ++ v ++ " 1"
+  | ["mapc", curve, _grp, tower, p, a, b, kind, z, u, Q] =>
+    match fieldOfCurve curve with
+    | none => "bad-op"
+    | some fc => if fc.q != parseHexD p then "bad-params" else mapcTower tower fc.q a b kind z u Q
   | [kind, curve, _grp, tower, p, a, b, r, msg, dst, P] =>
     if kind != "enc" && kind != "hash" then "bad-op" else
     match fieldOfCurve curve with
